@@ -54,7 +54,7 @@ func TestC22(t *testing.T) {
 		maxOff, maxLen = 6, 7
 	}
 	qMax := maxOff + maxLen + 2
-	rep.Rule = fmt.Sprintf("BFS over histories of trackWrite(off in 0..%d, len in 0..%d) on the real TFile, de-duplicated on (marker dump, model bitmap) to the fixed point; in every state getRangeToRead(o,l) for all o in 0..%d, l in 1..%d is compared with the bitmap; distinct = distinct (markers,bitmap) states", maxOff, maxLen, qMax, qMax)
+	rep.Rule = fmt.Sprintf("BFS over histories of trackWrite(off in 0..%d, len in 0..%d) on the real TFile, de-duplicated on (marker dump, model bitmap) to the fixed point; in every state getRangeToRead(o,l) for all o in 0..%d, l in 1..%d is compared with the bitmap; plus the same search to the fixed point over writes [b_i,b_j) between 12 boundaries straddling the byte boundaries of the 8-byte marker keys (256, 512, 65536, 2^32, 2^40), queried at, below and inside every segment; distinct = distinct (markers,bitmap) states", maxOff, maxLen, qMax, qMax)
 	var alphabet []c22op
 	// zero-length writes cover no offset; they are part of the alphabet but violations that need one are labelled
 	for l := int64(0); l <= maxLen; l++ {
@@ -116,4 +116,103 @@ func TestC22(t *testing.T) {
 		rep.NotExhaustive("state cap hit before the fixed point")
 	}
 	rep.Sample(map[string]interface{}{"history": res.Deepest, "canon": res.DeepestKey})
+	c22wide(rep)
+}
+
+// c22wide: the same search over offsets taken from a set of boundaries that straddle the byte boundaries of the
+// tracker's 8-byte big-endian marker keys (255/256, 65535/65536, 2^32, 2^40): writes [b_i, b_j) for every i<j; the model is a
+// bitmap over the segments between consecutive boundaries; queries start at every boundary, one below it and inside
+// every segment, with lengths reaching every later boundary.
+func c22wide(rep *lib.Report) {
+	B := []int64{0, 200, 256, 300, 511, 512, 600, 65536, 70000, 1 << 32, 1<<32 + 7, 1 << 40}
+	nseg := len(B) - 1
+	segOf := func(o int64) int {
+		for i := nseg - 1; i >= 0; i-- {
+			if o >= B[i] {
+				return i
+			}
+		}
+		return 0
+	}
+	type wop struct{ I, J int }
+	var alphabet []wop
+	for i := 0; i < len(B); i++ {
+		for j := i + 1; j < len(B); j++ {
+			alphabet = append(alphabet, wop{i, j})
+		}
+	}
+	build := func(h []wop) (*filetracker.TFile, []bool) {
+		tf := filetracker.VerifNew()
+		bm := make([]bool, nseg)
+		for _, o := range h {
+			tf.VerifTrackWrite(B[o.I], B[o.J]-B[o.I])
+			for k := o.I; k < o.J; k++ {
+				bm[k] = true
+			}
+		}
+		return tf, bm
+	}
+	var queries []int64
+	for i := 0; i < nseg; i++ {
+		queries = append(queries, B[i], B[i]+1, (B[i]+B[i+1])/2, B[i+1]-1)
+	}
+	hist := func(h []wop) string {
+		s := ""
+		for _, o := range h {
+			s += fmt.Sprintf("[%d,%d) ", B[o.I], B[o.J])
+		}
+		return s
+	}
+	res := lib.BFS(lib.BFSConfig[wop]{
+		Alphabet: func(h []wop) []wop { return alphabet },
+		Canon: func(h []wop) string {
+			tf, bm := build(h)
+			s := ""
+			for _, m := range tf.VerifMarkers() {
+				if m.Start {
+					s += fmt.Sprintf("S%d,", m.Offset)
+				} else {
+					s += fmt.Sprintf("E%d,", m.Offset)
+				}
+			}
+			return s + fmt.Sprint(bm)
+		},
+		Visit: func(h []wop) {
+			tf, bm := build(h)
+			for _, o := range queries {
+				so := segOf(o)
+				// end of the maximal run of segments classified like o's
+				runEnd := so
+				for runEnd+1 < nseg && bm[runEnd+1] == bm[so] {
+					runEnd++
+				}
+				for j := so + 1; j < len(B); j++ {
+					l := B[j] - o
+					rng, mutable := tf.VerifRange(o, l)
+					rep.Eval(1)
+					if mutable != bm[so] {
+						rep.Violate(fmt.Sprintf("C22|wide|class|want-mutable=%v", bm[so]), fmt.Sprintf("after writes %s: offset %d reported mutable=%v, model says %v (markers %v)", hist(h), o, mutable, bm[so], tf.VerifMarkers()), hist(h))
+						break
+					}
+					if rng > l {
+						rep.Violate("C22|wide|range-exceeds-request", fmt.Sprintf("after writes %s: range(%d,%d)=%d", hist(h), o, l, rng), hist(h))
+						break
+					}
+					if o+rng > B[runEnd+1] {
+						rep.Violate(fmt.Sprintf("C22|wide|range-crosses-boundary|from-mutable=%v", bm[so]), fmt.Sprintf("after writes %s: range(%d,%d)=%d crosses the boundary at %d (markers %v)", hist(h), o, l, rng, B[runEnd+1], tf.VerifMarkers()), hist(h))
+						break
+					}
+				}
+			}
+		},
+		MaxDepth:  0,
+		MaxStates: 500000,
+		Workers:   16,
+	})
+	rep.AddStates(int64(res.States), int64(res.Transitions), int64(res.Transitions))
+	rep.Set("wide_states", res.States)
+	rep.Set("wide_fixed_point", res.FixedPoint)
+	if !res.FixedPoint {
+		rep.NotExhaustive("wide search: state cap hit before the fixed point")
+	}
 }
